@@ -5,12 +5,12 @@ import os
 
 VERIF = os.path.dirname(os.path.dirname(os.path.abspath(__file__)))
 
-HOOK_COMMITS = ["86e593a"]  # filled once the guarded hook is committed in /repo
+HOOK_COMMITS = ["309dfd1"]  # filled once the guarded hook is committed in /repo
 
 CHECKS = {
     "C07": dict(
         technique="property-based testing (Hypothesis) against a verified LP dual certificate (weak duality)",
-        text="Generated-input search: thousands of (p, q, cost, layout) cases per run; every plan is checked for sign, both marginals "
+        text="Generated-input search: thousands of (p, q, cost, layout) cases per run (sizes 1..12 quick, 1..64 thorough, plus a family of problems with about 2^16 to 1.35e5 cells); every plan is checked for sign, both marginals "
              "(1e-9) and optimality (1e-7 relative) against a dual lower bound that is verified in floating point, so the verdict does "
              "not rest on the LP solver's tolerances. Exploration only: absence of violations on the generated cases, plus mutants "
              "showing the check fails when the arc mapping, supply sign or cost orientation is broken.",
